@@ -33,7 +33,10 @@ func init() {
 			"forward_checks", "forward_checks_equal", "descent_steps", "replay_determinism_checks",
 			"tx_register_v1", "tx_register_v2", "tx_update", "tx_cancel", "tx_activate", "tx_vote_v1", "tx_cancel_vote_v1", "tx_deposit_topup", "tx_return_deposit",
 			"tx_exchange_votes", "tx_voting", "tx_voting_renewal", "tx_return_votes", "tx_illegal", "tx_revert_to_pow", "tx_revert_to_dpos", "tx_next_turn_dpos_info",
-			"blocks_with_confirm", "blocks_without_confirm", "blocks_in_pow_mode", "era_public_dpos", "era_new_cr", "era_dposv2_start", "histories_dposv2_active"},
+			"blocks_with_confirm", "blocks_without_confirm", "blocks_in_pow_mode", "era_public_dpos", "era_new_cr", "era_dposv2_start", "histories_dposv2_active",
+			// level 2 (full node)
+			"l2_scenarios_ok", "l2_control_equal", "l2_prefix_equal", "l2_rollback_compares", "l2_rollforward_compares", "l2_reorgs_done", "l2_losing_blocks_mined", "l2_losing_txs_mined",
+			"l2_canonical_committee_elected", "l2_canonical_dposv2_active", "l2_canonical_producer_became_inactive", "l2_canonical_blocks_with_confirm", "l2_save_boundary_scenarios"},
 		Assumptions: []string{
 			"the CR committee seen by the DPoS state is emulated by the driver as a pure function of the chain prefix (election status, members, claimed node keys); member fields written by the DPoS state itself are left to the code under test and compared",
 			"transactions are generated so that the state preconditions of their SpecialContextCheck hold (read from the live state); signatures, fees and UTXO scripts are not produced because state-level processing never looks at them",
@@ -53,13 +56,47 @@ func init() {
 // per shard and count the repetitions.
 var c21Seen = map[string]bool{}
 
+// c21Violate records a violation once per signature. Level-2 (full node)
+// signatures are folded onto the level-1 names so that one defect has one
+// signature whichever workload observed it:
+//   - "l2:rollback-diff:X" (state right after CkpManager.OnRollbackTo differs
+//     from the state the node had at that height) is the property's literal
+//     statement and is reported as "rollback-diff:X";
+//   - divergences seen only later, at canonical heights after the reorganisation
+//     ("l2:rollforward-diff:X") and the node refusing the winning chain
+//     ("l2:node-stuck-after-reorg:...") are CONSEQUENCES of a rollback divergence
+//     in the same scenario; they are counted ("l2_consequence|...") and written to
+//     the notes, not reported a second time under a different name.
 func c21Violate(c *kit.Ctx, sig, detail string, cas interface{}) {
+	switch {
+	case strings.HasPrefix(sig, "l2:rollback-diff:"):
+		c.Inc("l2_reproduced|" + strings.TrimPrefix(sig, "l2:"))
+		sig = strings.TrimPrefix(sig, "l2:")
+	case sig == "l2:rollforward-diff:blocks-at-or-below-saved-checkpoint-height-skipped",
+		sig == "l2:node-stuck-after-reorg-across-saved-checkpoint-height":
+		c.Inc("l2_reproduced|rollforward-diff:blocks-at-or-below-saved-checkpoint-height-skipped")
+		sig = "rollforward-diff:blocks-at-or-below-saved-checkpoint-height-skipped"
+	case strings.HasPrefix(sig, "l2:rollforward-diff:"), strings.HasPrefix(sig, "l2:node-stuck-after-reorg"):
+		c.Inc("l2_consequence|" + sig)
+		if !c21Seen[sig] {
+			c21Seen[sig] = true
+			c.Note("level-2 consequence (not judged separately): %s: %s", sig, c21Trunc(detail, 300))
+		}
+		return
+	}
 	c.Inc("seen|" + sig)
 	if c21Seen[sig] {
 		return
 	}
 	c21Seen[sig] = true
 	c.Violate(sig, detail, cas)
+}
+
+func c21Trunc(s string, n int) string {
+	if len(s) > n {
+		return s[:n]
+	}
+	return s
 }
 
 func runC21(c *kit.Ctx) {
@@ -72,7 +109,8 @@ func runC21(c *kit.Ctx) {
 		c.Count("zero_entry_residue_not_judged:"+k, v)
 	}
 	c21ZeroEntryMu.Unlock()
-	// level 2 (full node reorganisation vs linear twin) goes here.
+	// level 2: full node reorganisation vs linear twin (c21_l2.go)
+	c21NodeLevel(c)
 }
 
 func c21StateLevel(c *kit.Ctx) {
